@@ -185,7 +185,8 @@ type run struct {
 	DocLen   int           `json:"docLen"`
 	Desc     string        `json:"desc"` // human-readable replay recipe
 	Script   encref.Script `json:"script"`
-	Unwrap   int           `json:"unwrap"` // 0 honest, 1 another key, 2 fails
+	Unwrap   int           `json:"unwrap"` // 0 honest, 1 another key, 2 (nil, err), 3 empty key without error, 4 32 zero bytes + err, 5 32 other bytes + err, 6 16-byte key without error
+	Forged   bool          `json:"forged"` // the document was built by the adversary under the all-zero file key
 	CBuf     int           `json:"cbuf"`
 	Pred     []int         `json:"pred"` // model prediction: released segments, term code (nil when not from the model)
 }
@@ -211,7 +212,7 @@ func (l *lockedBatch) Ev(name string, m tv.M) {
 func execute(tb *tv.Batch, h *honest, r run) outcome {
 	mutated := !bytes.Equal(r.Doc, h.doc) || r.Unwrap != 0
 	headerOnly := len(h.plain) > 0 && bytes.Count(r.Doc, []byte{'\n'}) == 3 && r.Doc[len(r.Doc)-1] == '\n' // three header lines, no payload byte
-	tb.Start(tv.M{"class": r.Class, "len": len(h.plain), "mutated": mutated, "headerOnly": headerOnly, "cipher": r.Cipher})
+	tb.Start(tv.M{"class": r.Class, "len": len(h.plain), "mutated": mutated, "headerOnly": headerOnly, "forged": r.Forged, "cipher": r.Cipher})
 	b := &lockedBatch{b: tb}
 	src := encref.New(r.Doc, r.Script, nil)
 	src.OnRead = func(k, n int, err error) {
@@ -225,6 +226,14 @@ func execute(tb *tv.Batch, h *honest, r run) outcome {
 			return pseudo(32, 4242), nil
 		case 2:
 			return nil, errors.New("verif: key not found")
+		case 3:
+			return []byte{}, nil
+		case 4:
+			return make([]byte, 32), errors.New("verif: key not found")
+		case 5:
+			return pseudo(32, 4343), errors.New("verif: key not found")
+		case 6:
+			return pseudo(16, 4444), nil
 		}
 		return append([]byte{}, w...), nil
 	}
@@ -339,6 +348,34 @@ func parseScripts(out string) []script {
 	return res
 }
 
+var unwrapOutcome = []string{"succeeds", "other-key", "fails", "short-key", "zero-key-with-error", "other-key-with-error", "short-key"}
+
+// forge builds, with the README implementation, a document of the same shape as h under the all-zero file key:
+// header MAC and every segment are computed under keys derived from 32 zero bytes, the wfk is garbage.
+func forge(h *honest) (hdr []byte, units []unit, plain []byte) {
+	plain = pseudo(len(h.plain), 777)
+	doc, err := encref.Encrypt(plain, encref.EncryptOpts{FileKey: make([]byte, 32), NoncePrefix: h.np, Cph: encref.CipherIDs[h.cipher], Kw: 1, WFK: pseudo(32, 555), KeyName: "c02-key"})
+	if err != nil {
+		panic(err)
+	}
+	ph, payload := encref.ParseHeader(doc)
+	for _, s := range encref.SplitSegments(payload) {
+		units = append(units, cellsOf(s))
+	}
+	return doc[:ph.Len], units, plain
+}
+
+func lineRanges(hdr []byte) (r [3][2]int) {
+	off := 0
+	for i, l := range bytes.SplitN(hdr, []byte{'\n'}, 4) {
+		if i < 3 {
+			r[i] = [2]int{off, off + len(l)}
+			off += len(l) + 1
+		}
+	}
+	return r
+}
+
 func opClass(op [3]int, units []unit) string {
 	switch op[0] {
 	case 1:
@@ -383,7 +420,9 @@ func opClass(op [3]int, units []unit) string {
 	case 13:
 		return "splice-append-" + []string{"", "same-key", "other-key", "other-key"}[op[2]]
 	case 14:
-		return []string{"", "unwrap-other-key", "unwrap-fails"}[op[1]]
+		return "unwrap-" + unwrapOutcome[op[1]]
+	case 15:
+		return "forge-zero-key"
 	}
 	return "?"
 }
@@ -399,13 +438,17 @@ func apply(h *honest, s script, rng *rand.Rand, variant int) run {
 	hdr := append([]byte{}, h.hdr...)
 	units := append([]unit{}, h.units...)
 	unwrap := 0
+	forged := false
 	var classes []string
 	for _, op := range s.Ops {
 		classes = append(classes, opClass(op, units))
 		a, bb := op[1], op[2]
 		switch op[0] {
+		case 15:
+			hdr, units, _ = forge(h)
+			forged = true
 		case 1, 2, 3:
-			ln := h.lines[op[0]-1]
+			ln := lineRanges(hdr)[op[0]-1]
 			pos := ln[0] + rng.Intn(ln[1]-ln[0])
 			hdr[pos] ^= 1 << uint(rng.Intn(8))
 		case 4:
@@ -459,7 +502,7 @@ func apply(h *honest, s script, rng *rand.Rand, variant int) run {
 			cellEnd = append(cellEnd, doc.Len())
 		}
 	}
-	r := run{Cipher: h.cipher, PlainLen: len(h.plain), Doc: doc.Bytes(), DocLen: doc.Len(), Unwrap: unwrap, Script: encref.NoErr(),
+	r := run{Cipher: h.cipher, PlainLen: len(h.plain), Doc: doc.Bytes(), DocLen: doc.Len(), Unwrap: unwrap, Forged: forged, Script: encref.NoErr(),
 		CBuf: []int{32 * 1024, segSize, 1000, segSize + 1}[variant%4], Pred: []int{s.PredRel, s.PredTerm}}
 	class := strings.Join(classes, "+")
 	if class == "" {
@@ -685,8 +728,24 @@ func sweeps(thorough bool, rng *rand.Rand) (rs []run, hs []*honest) {
 				}
 			}
 		}
+		// documents forged under the all-zero file key x every outcome of the unwrap callback
+		for _, h := range []*honest{small, big, empty} {
+			fh, fu, _ := forge(h)
+			var fd bytes.Buffer
+			fd.Write(fh)
+			for _, u := range fu {
+				fd.Write(u.bytes())
+			}
+			for uw := 0; uw <= 6; uw++ {
+				add(h, run{Class: "forge-zero-key+unwrap-" + unwrapOutcome[uw], Doc: fd.Bytes(), Unwrap: uw, Forged: true,
+					Desc: fmt.Sprintf("document of a %d-byte attacker message built with the README implementation under the all-zero file key (MAC and segments under HKDF(32 zero bytes)), garbage wfk; unwrap callback outcome %d (%s)", len(h.plain), uw, unwrapOutcome[uw])})
+			}
+		}
 		// wrong unwrapped key
 		for _, h := range []*honest{small, big, empty} {
+			for uw := 3; uw <= 6; uw++ {
+				add(h, run{Class: "unwrap-" + unwrapOutcome[uw], Doc: h.doc, Unwrap: uw, Desc: fmt.Sprintf("honest document, unwrap callback outcome %d (%s)", uw, unwrapOutcome[uw])})
+			}
 			add(h, run{Class: "unwrap-other-key", Doc: h.doc, Unwrap: 1, Desc: "unwrap callback returns another 32-byte key"})
 			add(h, run{Class: "unwrap-fails", Doc: h.doc, Unwrap: 2, Desc: "unwrap callback fails"})
 		}
@@ -707,7 +766,7 @@ type posCase struct {
 // runPosition seals one chunk for (N, last) and hands it to the REAL segment decryptor at every candidate position:
 // the boundary counters, N mod 2^24, N mod 2^16, N +- 2^24, N +- 2^16, N +- 1, each with both last flags.
 func runPosition(b *tv.Batch, cs posCase) {
-	b.Start(tv.M{"class": "segment-position", "len": 0, "mutated": true, "headerOnly": false, "cipher": cs.Cipher, "sealer": cs.Sealer, "N": int64(cs.N), "last": cs.Last})
+	b.Start(tv.M{"class": "segment-position", "len": 0, "mutated": true, "headerOnly": false, "forged": false, "cipher": cs.Cipher, "sealer": cs.Sealer, "N": int64(cs.N), "last": cs.Last})
 	fk, np := pseudo(32, int64(cs.N)+15), pseudo(7, int64(cs.N)+16)
 	chunk := pseudo(40, int64(cs.N)+17)
 	enc, dec, err := v1.VerifSegmentFns(fk, np, v1.Cipher(cs.Cipher))
@@ -772,14 +831,19 @@ func mcRun(e *ev.Evidence, cfg string, timeout time.Duration, wantViolation bool
 }
 
 func exportScripts(e *ev.Evidence, cfg string) []script {
+	ss, _ := exportScriptsRes(e, cfg)
+	return ss
+}
+
+func exportScriptsRes(e *ev.Evidence, cfg string) ([]script, tlc.Result) {
 	res := encref.RunTLC(tlc.Opts{Dir: specDir, Module: "EncTamper", Config: cfg, Workers: 8, Timeout: 20 * time.Minute, Args: []string{"-noGenerateSpecTE"}, HeapMB: 8192})
 	if !res.OK {
-		e.Inconclusive("script export " + cfg + " failed: " + res.What)
-		return nil
+		e.Inconclusive("script export " + cfg + " failed: " + res.What + "\n" + res.Tail(2000))
+		return nil, res
 	}
 	ss := parseScripts(res.Output)
 	fmt.Printf("script export %s: %d scripts (%d states) wall=%s\n", cfg, len(ss), res.Distinct, res.Wall.Round(time.Millisecond))
-	return ss
+	return ss, res
 }
 
 type batches struct {
@@ -809,21 +873,46 @@ func TestCheck(t *testing.T) {
 	// 1. model checks (background)
 	mcDone := make(chan tlc.Result, 1)
 	go func() {
-		mc := mcRun(e, ev.Pick("MC_tamper_small.cfg", "MC_tamper_big.cfg"), ev.Pick(5*time.Minute, 40*time.Minute), false)
-		mcRun(e, "MC_tamper_strict.cfg", 3*time.Minute, true)
-		for _, d := range []string{"MC_tamper_defect_nolastbind.cfg", "MC_tamper_defect_release-first.cfg", "MC_tamper_defect_swallow.cfg"} {
-			mcRun(e, d, 3*time.Minute, true)
+		var mc tlc.Result
+		if thorough {
+			mc = mcRun(e, "MC_tamper_big.cfg", 40*time.Minute, false)
+		}
+		// configurations TLC must reject (strict = without the named exemption; defect variants), three at a time
+		var dw sync.WaitGroup
+		sem := make(chan struct{}, 3)
+		for _, d := range []string{"MC_tamper_strict.cfg", "MC_tamper_defect_nolastbind.cfg", "MC_tamper_defect_release-first.cfg", "MC_tamper_defect_swallow.cfg",
+			"MC_tamper_defect_zero-key-accepted.cfg", "MC_position_defect_wrap24.cfg", "MC_position_defect_wrap16.cfg", "MC_position_defect_last-overlaps.cfg"} {
+			dw.Add(1)
+			go func(d string) {
+				defer dw.Done()
+				sem <- struct{}{}
+				defer func() { <-sem }()
+				mcRun(e, d, 3*time.Minute, true)
+			}(d)
 		}
 		mcRun(e, "MC_position.cfg", 3*time.Minute, false)
-		for _, d := range []string{"MC_position_defect_wrap24.cfg", "MC_position_defect_wrap16.cfg", "MC_position_defect_last-overlaps.cfg"} {
-			mcRun(e, d, 3*time.Minute, true)
-		}
+		dw.Wait()
 		mcDone <- mc
 	}()
 
 	// 2. scripts exported by TLC
-	s1 := exportScripts(e, "MC_tamper_scripts1.cfg") // <= 1 op, with and without source failure
-	s2 := exportScripts(e, "MC_tamper_scripts2.cfg") // <= 2 ops
+	var s1, s2 []script
+	var mcQuick tlc.Result
+	if thorough {
+		s1 = exportScripts(e, "MC_tamper_scripts1.cfg") // <= 1 op, with and without source failure
+		s2 = exportScripts(e, "MC_tamper_scripts2.cfg") // <= 2 ops
+	} else {
+		// quick tier: the exhaustive model check (<= 2 ops, source failure with <= 1 op, all invariants) prints its own terminal states
+		var all []script
+		all, mcQuick = exportScriptsRes(e, "MC_tamper_small_export.cfg")
+		for _, sc := range all {
+			if len(sc.Ops) <= 1 {
+				s1 = append(s1, sc)
+			} else {
+				s2 = append(s2, sc)
+			}
+		}
+	}
 	var scripts []script
 	scripts = append(scripts, s1...)
 	two := 0
@@ -879,7 +968,13 @@ func TestCheck(t *testing.T) {
 		e.Nontrivial(r.Cipher + "|" + r.Desc + "|" + r.Class)
 		if r.Pred != nil {
 			want := []string{"eof", "err", "decrypt-err"}[r.Pred[1]]
-			if o.term != want || o.released != predReleasedBytes(hons[i], r.Pred[0]) {
+			sameTerm := o.term == want
+			if r.Script.ErrAt >= 0 && want != "eof" && o.term != "eof" {
+				// a source failure is reported by Decrypt itself when the failing Read is the one that completes the header
+				// (depends on the reader's chunking, which the symbolic model abstracts): both are "an error"
+				sameTerm = true
+			}
+			if !sameTerm || o.released != predReleasedBytes(hons[i], r.Pred[0]) {
 				drift++
 				if len(driftSamples) < 5 {
 					driftSamples = append(driftSamples, tv.M{"run": r, "model": tv.M{"term": want, "releasedSegments": r.Pred[0]}, "real": tv.M{"term": o.term, "released": o.released}})
@@ -892,6 +987,9 @@ func TestCheck(t *testing.T) {
 		len(runs), nScriptRuns, len(runs)-nScriptRuns, time.Since(start).Round(time.Millisecond), drift)
 
 	mc := <-mcDone
+	if !thorough {
+		mc = mcQuick
+	}
 	e.Set("states", mc.Distinct)
 	e.Set("transitions", mc.Generated)
 	e.Set("checker_cmd", mc.Cmd)
@@ -921,6 +1019,10 @@ func TestCheck(t *testing.T) {
 			r := runs[mb.caseOf[bi][rj.Trace]]
 			key := strings.SplitN(r.Class, ":", 2)[0] + ":" + slug(rj.Why)
 			what := fmt.Sprintf("%s [%s, %s]: %s", r.Class, r.Cipher, r.Desc, rj.Why)
+			if r.Forged && strings.HasPrefix(rj.Why, "forged document") {
+				key = "forged-under-zero-key:unwrap-" + unwrapOutcome[r.Unwrap]
+				what = fmt.Sprintf("Decrypt accepted a document FORGED under the all-zero file key when the unwrap callback %s [%s, %s]: %s", unwrapOutcome[r.Unwrap], r.Cipher, r.Desc, rj.Why)
+			}
 			if rj.Why == namedWhy {
 				key = namedKey
 				what = "document cut right after its header (all segments removed) decrypts to the empty message with a clean EOF: " + r.Desc
